@@ -12,6 +12,11 @@ Settings:  spec/MC_ChemistrySettings.tla -- ONE long-lived chemistry, settings w
 Names:     spec/MC_MolMass.tla -- the formula read character by character; processes of chemistry objects whose gas
            names coincide under a lossy key (harness/fx_chemdims.py).
 Power law: spec/MC_PowerLaw.tla -- which control values are supplied / tabulated, by which route (fx_chemdims.py).
+Round 4:   spec/EX_Chemistry_over_*.cfg -- a SINGLE gas requested at / above one (one layer, both, next to another gas), handed
+           over through every built-in profile class that can request it exactly; the requested profiles (not what a gas
+           reports) decide the verdict (Chemistry.tla!Seen, wrong design "clip_traces").  Every scalar route to the mean
+           molecular weight (`mu`, the derived-parameter registry) against the weights of the surface layer
+           (Chemistry.tla!MuScalarWeights, invariant ScalarMuAtSurface, wrong designs "mu_layer_mean" / "mu_top_layer").
 Binding C: spec/Functional.tla walks (harness/history.py, harness/fx_chemhistory.py): one long-lived gas of every
            built-in profile type / one TaurexChemistry re-initialised after a change of a fitting parameter, the
            layer count, the pressure grid, the temperature profile; every evaluation must equal a fresh object's.
